@@ -68,6 +68,19 @@ func ClearChildren(ctx context.Context) context.Context {
 // NopComponent is a component that doesn't render anything.
 var NopComponent = ComponentFunc(func(ctx context.Context, w io.Writer) error { return nil })
 
+// renderChildren renders the children in the context. The children are cleared while they
+// are being rendered, so that they are not passed on to the components they contain.
+func renderChildren(ctx context.Context, w io.Writer) error {
+	_, v := getContext(ctx)
+	children := v.children
+	if children == nil {
+		return nil
+	}
+	v.children = nil
+	defer func() { v.children = children }()
+	return (*children).Render(ctx, w)
+}
+
 // GetChildren from the context.
 func GetChildren(ctx context.Context) Component {
 	_, v := getContext(ctx)
